@@ -415,6 +415,11 @@ func init() {
 					}
 				}
 			}
+			// the recorded history of the known finding (childless event of a departed
+			// validator), kept in every tier and at every seed: thorough seed 1 case 542
+			cs = append(cs, CaseSpec{Kind: "history",
+				P: map[string]int64{"badger": 1, "cache": 3146, "joins": 2, "keepsilent": 0, "leaves": 1, "n": 5, "simultaneous": 1, "steps": 869, "suspendlimit": 1000000, "pin_seed": 1, "pin_index": 542},
+				S: map[string]string{"shape": "silent", "pin_tier": "thorough"}})
 			return cs
 		},
 		Run: func(cs CaseSpec) *CaseResult {
